@@ -98,9 +98,9 @@ def run_genesis(ctx, prop, tier, seed, binp, workdir):
         else:
             payload = dict(special="reimport", signature=sig, history=r["history"], step=r["step"],
                            first_observed={k: v for k, v in r["obs"].items() if k not in ("state", "reimported")})
-        rp = write_replay(ctx, prop, seed, payload)
+        rp = write_replay(ctx, sig.split(":")[0], seed, payload)
         if not replay(json.load(open(rp)), binp, workdir, ctx):
-            raise ctx["Machinery"]("C17 counterexample %s did not reproduce (%s)" % (sig, rp))
+            raise ctx["Machinery"]("genesis counterexample %s did not reproduce (%s)" % (sig, rp))
         violations.append(dict(signature=sig, replay=rp))
     nre = sum(1 for r in recs.values() if r["kind"] == "reimport")
     samples = [dict(kind="genesis", g=recs[1]["g"], observed={k: recs[1]["obs"][k] for k in ("validate", "init", "export")})]
@@ -254,7 +254,24 @@ REPLAYS = {"genesis": replay_genesis, "reimport": replay_genesis, "codec": repla
 
 
 def run(special, prop, tier, seed, binp, workdir, ctx):
-    return FLOWS[special](ctx, prop, tier, seed, binp, workdir)
+    """A flow serves one or several properties: its result (all signatures) is cached by content hash like a stage;
+    each check reads the signatures that start with its own property id."""
+    cdir = os.path.join(ctx["OUT"], "cache")
+    os.makedirs(cdir, exist_ok=True)
+    cp = os.path.join(cdir, "special-%s-%s-%s-%s.json" % (special, tier, seed, ctx["thash"]))
+    res = None
+    if os.path.exists(cp) and os.environ.get("VERIF_NOCACHE") != "1" and special in ("genesis",):
+        try:
+            res = json.load(open(cp))
+            if not all(os.path.exists(v["replay"]) for v in res["violations"]):
+                res = None
+        except Exception:
+            res = None
+    if res is None:
+        res = FLOWS[special](ctx, prop, tier, seed, binp, workdir)
+        json.dump(res, open(cp + ".tmp%d" % os.getpid(), "w"))
+        os.replace(cp + ".tmp%d" % os.getpid(), cp)
+    return dict(violations=[v for v in res["violations"] if v["signature"].startswith(prop + ":")], coverage=res["coverage"])
 
 
 def replay(rp, binp, workdir, ctx):
